@@ -53,3 +53,11 @@ def k5(info):
     (the check marks the case only when the reported position is exactly that parenthesis)"""
     d = info.get("details") or {}
     return bool(d.get("name_directly_in_parentheses")) or d.get("known_probe") == "K5"
+
+
+@signature("call_inside_slot")
+def k6(info):
+    """K6: a failure inside a function called from an interpolation slot is anchored at the slot and the call's trace line
+    carries a slot-relative position; accepted only when the check established that everything else is as required"""
+    d = info.get("details") or {}
+    return bool(d.get("call_inside_slot_known_shape")) or d.get("known_probe") == "K6"
